@@ -459,6 +459,63 @@ func TestVfC15(t *testing.T) {
 			r.Flush(false)
 		}
 	}
+	// a call ends even when the ending message cannot be stored (store failure, or the caller lost W meanwhile)
+	if callsOn {
+		for variant := 0; variant < 2; variant++ {
+			w := vfNewWorld(e, r, rng)
+			a, b := w.user("a", auth.LevelAuth), w.user("b", auth.LevelAuth)
+			ca, cb := w.conn(a, false), w.conn(b, false)
+			ca.sub(b.uid.UserId(), nil)
+			cb.sub(a.uid.UserId(), nil)
+			globals.callEstablishmentTimeout = 3000
+			f := ca.pub(b.uid.UserId(), "call-x", false, map[string]any{"webrtc": "started"})
+			e.vfQuiesce()
+			if f == nil || f.code() != 202 {
+				r.Inconclusive("c15 fault: invitation refused")
+				w.closeAll()
+				continue
+			}
+			seq := int(f.params()["seq"].(float64))
+			label := "store-failure"
+			if variant == 0 {
+				fired := false
+				vfRec.setFault(func(c *vfmem.Call) error {
+					if c.Op == "MessageSave" && !fired {
+						fired = true
+						return fmt.Errorf("vf injected failure")
+					}
+					return nil
+				})
+			} else {
+				label = "caller-lost-W"
+				cb.set(a.uid.UserId(), map[string]any{"sub": map[string]any{"user": a.uid.UserId(), "mode": "JRPA"}})
+				e.vfQuiesce()
+			}
+			from := cb.frameCount()
+			ca.send("note", map[string]any{"topic": b.uid.UserId(), "what": "call", "event": "hang-up", "seq": seq})
+			e.vfQuiesce()
+			vfRec.setFault(nil)
+			if variant == 1 {
+				cb.set(a.uid.UserId(), map[string]any{"sub": map[string]any{"user": a.uid.UserId(), "mode": "JRWPA"}})
+				e.vfQuiesce()
+			}
+			gotHangup := false
+			for _, fr := range cb.since(from) {
+				if fr.Kind == "info" && fr.str("event") == "hang-up" {
+					gotHangup = true
+				}
+			}
+			f2 := cb.pub(a.uid.UserId(), "call-y", false, map[string]any{"webrtc": "started"})
+			e.vfQuiesce()
+			r.Hit("call_ends_when_final_write_fails")
+			r.Eval("end-under-" + label)
+			if !gotHangup || f2 == nil || f2.code() != 202 {
+				r.Violation("call-stuck-after-failed-final-write:"+label, fmt.Sprintf("the ending message could not be stored (%s): hang-up relayed=%v, next invitation answered %s", label, gotHangup, codeStr(f2)), nil)
+			}
+			w.closeAll()
+			e.vfQuiesce()
+		}
+	}
 	// calls are p2p only
 	if callsOn {
 		w := vfNewWorld(e, r, rng)
